@@ -492,6 +492,50 @@ def user_functions(ctx, system="bin", order=(0, 1), kind="mobility", form="dict"
             ctx.prove("interdiffusivity is built from each element's own user function", ctx.eq(Dn2[i, j], want, atol=1e-12))
 
 
+def default_correction(ctx, system="tern", ref="NI", side="diffusivity"):
+    """the documented default of the correction argument (None) means a factor of 1 for every element: each function
+    gives the same result with None as with the all-ones dictionary, and a dictionary naming only some elements equals
+    the full dictionary with ones for the others"""
+    cs, els, X, T, y = mk_compset(ctx, _SYSTEMS[system])
+    n = len(els)
+    calls = mk_callables(ctx, els, tag="diff_" if side == "diffusivity" else "")
+    mu = ctx.reals("mu", n, (-1.0, 1.0))
+    c0 = ctx.real("corr", (0.5, 2.0))
+    ones = lambda: {e: 1 for e in els}
+    partial = lambda: {els[-1]: c0}
+    full = lambda: dict(ones(), **{els[-1]: c0})
+
+    def same(a, b):
+        a = _np.asarray(a, dtype=object); b = _np.asarray(b, dtype=object)
+        return a.shape == b.shape and ctx.all([ctx.eq(sc(a[i]), sc(b[i]), atol=1e-12) for i in _np.ndindex(*a.shape)])
+    if side == "diffusivity":
+        fns = [("tracer_diffusivity_from_diff", lambda c: MOB.tracer_diffusivity_from_diff(cs, calls, diffusivity_correction=c, parameters={})),
+               ("interdiffusivity_from_diff", lambda c: MOB.interdiffusivity_from_diff(cs, ref, calls, diffusivity_correction=c, parameters={})),
+               ("inverseMobility_from_diffusivity", lambda c: MOB.inverseMobility_from_diffusivity(mu, cs, ref, calls, diffusivity_correction=c, parameters={})[:2])]
+        defaults = [lambda: MOB.tracer_diffusivity_from_diff(cs, calls), lambda: MOB.interdiffusivity_from_diff(cs, ref, calls),
+                    lambda: MOB.inverseMobility_from_diffusivity(mu, cs, ref, calls)[:2]]
+    else:
+        fns = [("mobility_from_composition_set", lambda c: mobility_from_composition_set(cs, calls, mobility_correction=c, parameters={})),
+               ("tracer_diffusivity", lambda c: tracer_diffusivity(cs, calls, mobility_correction=c, parameters={})),
+               ("mobility_matrix", lambda c: mobility_matrix(cs, calls, mobility_correction=c, parameters={})),
+               ("chemical_diffusivity", lambda c: chemical_diffusivity(mu, cs, calls, mobility_correction=c, parameters={})[0]),
+               ("interdiffusivity", lambda c: interdiffusivity(mu, cs, ref, mobility_callables=calls, mobility_correction=c, parameters={})[0]),
+               ("inverseMobility", lambda c: inverseMobility(mu, cs, ref, calls, mobility_correction=c, parameters={})[:2])]
+        defaults = [lambda: mobility_from_composition_set(cs, calls), lambda: tracer_diffusivity(cs, calls), lambda: mobility_matrix(cs, calls),
+                    lambda: chemical_diffusivity(mu, cs, calls)[0], lambda: interdiffusivity(mu, cs, ref, mobility_callables=calls)[0],
+                    lambda: inverseMobility(mu, cs, ref, calls)[:2]]
+    with hessian_stub(ctx, n) as (P, H):
+        for (name, f), fd in zip(fns, defaults):
+            r_one = f(ones())
+            ctx.observe(name, [sc(q) for part in (r_one if isinstance(r_one, tuple) else (r_one,)) for q in _np.ravel(_np.asarray(part, dtype=object))])
+            for label, got in (("argument left out", fd()), ("None", f(None))):
+                pairs = zip(got, r_one) if isinstance(r_one, tuple) else [(got, r_one)]
+                ctx.prove("default correction (%s) = factor 1 for every element: %s" % (label, name), ctx.all([same(a, b) for a, b in pairs]))
+            r_p, r_f = f(partial()), f(full())
+            pairs = zip(r_p, r_f) if isinstance(r_f, tuple) else [(r_p, r_f)]
+            ctx.prove("elements missing from the correction dictionary get factor 1: " + name, ctx.all([same(a, b) for a, b in pairs]))
+
+
 def reorder(ctx, system="tern", order=(0, 1, 2), vacancy_poor=False):
     """GeneralThermodynamics._interdiffusivitySingle hands back D^n with rows/columns in the user's solute order, the
     user's first element as reference, whatever the alphabetical position of the elements"""
@@ -599,6 +643,14 @@ HARNESSES = [
                     "thorough": [{"system": s, "order": list(o), "kind": k, "form": f, "corr": c}
                                  for s, os_ in (("bin", ((0, 1), (1, 0))), ("tern", _perm3)) for o in os_ for k in ("mobility", "diffusivity")
                                  for f, c in (("dict", True), ("single", False), ("element_first", False), ("element_last", True))]}),
+    Harness("C10.default_correction", default_correction, functions=_F + [MOB.tracer_diffusivity_from_diff, MOB.interdiffusivity_from_diff,
+                                                                            MOB.inverseMobility_from_diffusivity],
+            assumptions=_A, bounds={"components": "2-3"}, opts={"inv_hook": _inv_cut},
+            stubs=_S + ["np.linalg.inv inside inverseMobility*: unconstrained in the symbolic runs; only the interdiffusivity and curvature parts of the result are compared"],
+            params={"quick": [{"system": "tern", "ref": "NI", "side": "diffusivity"}, {"system": "bin", "ref": "AL", "side": "diffusivity"},
+                              {"system": "tern", "ref": "CR", "side": "mobility"}, {"system": "tern_c", "ref": "FE", "side": "mobility"}],
+                    "thorough": [{"system": s, "ref": r, "side": sd} for s in ("bin", "tern", "tern_c", "quat") for r in _SYSTEMS[s] if r not in interstitials
+                                 for sd in ("diffusivity", "mobility")]}),
     Harness("C10.reorder", reorder, functions=_F, assumptions=_A, bounds={"components": "3-4"}, opts={"inv_hook": _inv_cut},
             stubs=_S + ["np.linalg.inv of the interdiffusivity matrix inside inverseMobility: unconstrained matrix in the symbolic runs (its product "
                         "is discarded by _interdiffusivitySingle); real inverse in concrete runs"],
